@@ -156,18 +156,19 @@ def cursor_obligations(fn):
             if ub in inc:
                 ok, why = True, "advanced in the block of the use"
             else:
-                # path from the use to the loop header inside the loop avoiding the advancing blocks?
-                seen, stack = set(), [s for s in fn.succs(ub) if s in body and s not in inc]
-                stall = False
-                while stack:
-                    x = stack.pop()
-                    if x == header:
-                        stall = True
-                        break
-                    if x in seen:
-                        continue
-                    seen.add(x)
-                    stack.extend(s for s in fn.succs(x) if s in body and s not in inc)
+                # a cycle use -> loop header -> use inside the loop that avoids every advancing block?
+                def avoid_reach(src, dst):
+                    seen, stack = set(), [s for s in fn.succs(src) if s in body and s not in inc]
+                    while stack:
+                        x = stack.pop()
+                        if x == dst:
+                            return True
+                        if x in seen:
+                            continue
+                        seen.add(x)
+                        stack.extend(s for s in fn.succs(x) if s in body and s not in inc)
+                    return False
+                stall = (ub == header or avoid_reach(ub, header)) and (ub == header or avoid_reach(header, ub))
                 ok = not stall
                 why = "advanced on every path back to the loop header" if ok else \
                     "a path from the use back to the loop header avoids every `%s` advance" % names.get(d, "?")
